@@ -686,6 +686,13 @@ def _norm1(e, ctx):
             return ('un', 'not', ('cmp', 'is', a, b))
         if op == 'is' and (a[0] == 'enum' or b[0] == 'enum'):
             return ('cmp', '==', a, b)                  # enum members are singletons: identity is equality
+        # two enumeration members: equal exactly when they are the same member
+        if op in ('==', '!=') and a[0] == 'enum' and b[0] == 'enum':
+            same = a[1:3] == b[1:3]
+            return ('const', same if op == '==' else not same)
+        if op in ('in', 'not in') and a[0] == 'enum' and b[0] in ('tuple', 'list', 'set') and b[1] and all(x[0] == 'enum' for x in b[1]):
+            inside = any(a[1:3] == x[1:3] for x in b[1])
+            return ('const', inside if op == 'in' else not inside)
         # two constants
         if op in ('==', '!=') and a[0] == 'const' and b[0] == 'const' and type(a[1]) is type(b[1]):
             return ('const', (a[1] == b[1]) if op == '==' else (a[1] != b[1]))
